@@ -12,6 +12,7 @@ import (
 	"crypto/sha256"
 	"encoding/binary"
 	"fmt"
+	"sort"
 	"strings"
 
 	"hv/fw"
@@ -32,6 +33,8 @@ func (c16) Info(tier string) fw.Info {
 			"Stored iterables: a range in a global (bounds assignable), ranges in an object field / a list element / a local, a string and lists are iterated by for loops that are left by return, break, continue, a caught and an uncaught throw, nested in themselves and re-entered through a call; the generator often calls an observer (or the same function again) right after such a call. " +
 			"Relay variant (1 history in 6): the invoked function hands its work over to threads (one thread, chains of two and three threads each started by the previous one, two chains side by side, the invoking core busy meanwhile), every stage spins 0-30000 iterations so that cores finish - and are reaped by Wait - in every order; for half of these histories the schedule is perturbed through the verifYield/verifCoreExit hooks: a core about to start a thread and a thread about to signal its exit is held (at most 25 ms) until Wait has removed every core that finished before (the verdict never depends on the waiting time). " +
 			fmt.Sprintf("Exits variant (1 history in 5, plus one fixed history per operand position that calls every member with every pooled argument): functions that are left from an operand position while other operands wait on the stack - %d positions (right operand of infix operators one and three deep and in a condition; right-hand side of = and of the compound operators for a local, a global, a field, an element, a nested place and places in globals; the index of a read, of an assignment target and of both; first / middle / last / nested argument of a named call, argument of a called value, of a method, next to a function literal; element of a list literal, field of an object literal, end of a range; condition of an if and control value of a match inside an operand; inside a try and next to a finished loop inside an operand) x 6 ways of leaving (return; continue and break of a while, a for and a loop loop with 0-2000 iterations; throw caught by a handler around the statement; the returning function itself called in operand position) x 3 syntaxes of the leaving operand (block, if-else, match); ", len(exitPositions)) +
+			fmt.Sprintf("Hosts: 1 history in 5 (and half of the family histories below) is driven through the repository's own testing host (homescript.TestingVmExecutor + TestingVmScopeAdditions) instead of the harness host; %d family histories use the out variant (functions that write to the host: print / println / debug with no, one, several arguments and empty texts; two writes per call, writes in a loop, in a try left by throw, before a return out of a loop, before an uncaught throw, by one thread and by two threads side by side; texts from arguments and from globals earlier calls wrote) and / or the single variant (two singletons whose values are the compiler's defaults, read and changed through extraction parameters and directly: list push, compound assignment, option, nested object, whole-field replacement); 2 in 3 of them contain 1-3 host operations @newvm: the host builds a NEW VM from the SAME compile output (also right after a failed VM has been probed), which must start from the initial state (the model is reset); six fixed histories call every function of the two families with every pooled text on both hosts and rebuild the VM after changing every global and singleton. ", familyCount(tier)) +
+			"After every call that was executed and ended as the model says, the text the call wrote to the host must be the text the function writes (either order for two threads), and what the host had collected before must still be there; NewVM writes nothing. The host's own lock (the print mutex of the testing host) must be free after NewVM and after every call, and around every single write (writes of the cores are passed on one at a time; a write that finds or leaves the mutex locked is recorded, NO further write is passed on - it would block forever - and the history ends with that verdict). " +
 			"Every call is compared with a sequential model of the service (globals state machine in Go): a completed call must return exactly the model's value with the declared dynamic type (nil/null for null functions), a failing call must fail with the model's fatal kind (and thrown message). " +
 			"After every completed call: every core started during the call (counted at verifYield(\"spawn\")) has signalled its exit before the call returned, their number is 1 + the number of threads the function starts, and the core of the invoked function exited with operand stack = exactly the return value (null for null functions), no call frames, memory pointer 0, no exception handlers. After every call: core list empty, Cores.Lock acquirable by TryLock (a leaked lock is reported and NO further call is attempted, so no worker ever blocks), no goroutine left inside runtime.(*Core).Run (a goroutine blocked in a channel send after the call returned can never proceed). " +
 			"AFTER A FAILED CALL the VM must answer later calls with a failure instead of blocking: Wait() cancels the shared context on failure; whenever the context is observed cancelled before a call (ctx.Err() != nil), ANY failure answer is accepted and a regular result is a violation (the call must not execute: the model state is not advanced); histories with a real cancel function end with one arbitrary call, one call of a few instructions (less than one 50-instruction scheduling cycle) and one of thousands. With a no-op cancel function the context stays live, later calls really execute and must agree with the model (which keeps the partial effects of the failed call). Blocking (lock precondition) and a host crash are rejected in both modes. " +
@@ -53,6 +56,14 @@ func counts(tier string) (hist, poisoned int) {
 		return 24000, 60
 	}
 	return 1200, 24
+}
+
+// familyCount: histories of the out / single variants (hosts, restarts).
+func familyCount(tier string) int {
+	if tier == "thorough" {
+		return 4000
+	}
+	return 180
 }
 
 func (c16) Cases(tier string, seed uint64) []fw.Case {
@@ -130,7 +141,71 @@ func (c16) Cases(tier string, seed uint64) []fw.Case {
 		pl, ff := genHistory(r, o)
 		pl.SkipLockAfterFailure = lockOpen
 		pl.Reap = o.variant.Relay && r.Bool()
+		// the host is decided by a stream of its own (the invocations stay what they were): 1 history in 5 is
+		// driven through the repository's testing host
+		if y := fw.NewRng(root0 ^ (uint64(i)+1)*0xc2b2ae3d27d4eb4f); y.Chance(1, 5) {
+			pl.Host = hostTesting
+		}
 		mk(fmt.Sprintf("h%05d", i), "hist", pl, ff)
+	}
+
+	// ---- writes to the host, singletons, VMs rebuilt from the same compile output (service3.go) -------
+	// (streams of their own: the histories above stay what they were)
+	fam := fw.NewRng(root0 ^ 0x5851f42d4c957f2d)
+	for i := 0; i < familyCount(tier); i++ {
+		r := fam.Fork()
+		v := variant(r)
+		switch r.Intn(3) {
+		case 0:
+			v.Out = true
+		case 1:
+			v.Single = true
+		default:
+			v.Out, v.Single = true, true
+		}
+		o := genOpts{variant: v, limits: fw.Pick(r, limitSets), n: histLen(r), failAt: -1, avoid: map[string]bool{tagRetAnyObj: anyOpen}}
+		o.favour = familyFavour(v)
+		switch shape := r.Intn(10); {
+		case shape < 4:
+		case shape < 7:
+			o.failNum, o.failDen = 1, 30
+		default:
+			o.failAt = 1 + r.Intn(o.n-1)
+			o.failNum, o.failDen = 1, 30
+		}
+		o.stopAtFailure = lockOpen
+		if !lockOpen {
+			o.noCancel = r.Chance(1, 3)
+		}
+		// 0-3 VMs rebuilt from the same compile output (2 histories in 3 have at least one)
+		if nr := fw.Pick(r, []int{0, 1, 1, 1, 2, 3}); nr > 0 && o.n >= 8 {
+			seen := map[int]bool{}
+			for k := 0; k < nr; k++ {
+				pos := 2 + r.Intn(o.n-5)
+				if !seen[pos] {
+					seen[pos] = true
+					o.restartAt = append(o.restartAt, pos)
+				}
+			}
+			sort.Ints(o.restartAt)
+		}
+		pl, ff := genHistory(r, o)
+		pl.SkipLockAfterFailure = lockOpen
+		if r.Bool() {
+			pl.Host = hostTesting
+		}
+		mk(fmt.Sprintf("f%05d", i), "family", pl, ff)
+	}
+	// fixed histories: every function of the families with every pooled text, on both hosts
+	if !lockOpen {
+		for _, hk := range []string{"", hostTesting} {
+			name := map[string]string{"": "harness", hostTesting: hostTesting}[hk]
+			mk("fs:out:"+name, "family-sweep", outSweep(hk), -1)
+			for _, init := range []string{"zero", "rich"} {
+				pl := singleSweep(hk, init)
+				mk("fs:single:"+name+":"+init, "family-sweep", pl, indexOfFn(pl, "st_fail"))
+			}
+		}
 	}
 
 	// ---- exits from operand positions: every function of the family with every pooled argument ----
@@ -204,6 +279,15 @@ func (c16) Cases(tier string, seed uint64) []fw.Case {
 // relayFavour: the functions of the relay variant that hand their work over to threads.
 const relayFavour = "relay_start,relay_start,relay_start3,relay_fan,relay_busy,relay_direct,relay_fail"
 
+func indexOfFn(pl Payload, fn string) int {
+	for i, op := range pl.Ops {
+		if op.Fn == fn {
+			return i
+		}
+	}
+	return -1
+}
+
 func hasFn(pl Payload, fn string) bool {
 	for _, op := range pl.Ops {
 		if op.Fn == fn {
@@ -235,6 +319,12 @@ func (c16) Run(c fw.Case) fw.Result {
 	if pl.Variant.Exits {
 		h.cover["variant:exits"] = true
 	}
+	if pl.Variant.Out {
+		h.cover["variant:out"] = true
+	}
+	if pl.Variant.Single {
+		h.cover["variant:single"] = true
+	}
 	if pl.Reap {
 		h.cover["schedule:reap-before-spawn-and-exit"] = true
 	}
@@ -252,7 +342,7 @@ func (c16) Run(c fw.Case) fw.Result {
 		res.Why = h.inconcl
 	}
 	if fw.HashOf(c.Payload)[0] == '0' && res.Verdict == fw.Held { // ~6 % of the cases
-		res.Sample = map[string]any{"variant": pl.Variant, "limits": pl.Limits, "no_cancel": pl.NoCancel, "history": h.trace}
+		res.Sample = map[string]any{"variant": pl.Variant, "limits": pl.Limits, "no_cancel": pl.NoCancel, "host": pl.Host, "history": h.trace}
 	}
 	return res
 }
